@@ -120,4 +120,3 @@ func Tokenize(data []byte, rev int, compressed bool, versions map[int]contents) 
 		}
 	}
 }
-
